@@ -19,8 +19,10 @@ import (
 	"context"
 	"fmt"
 	"io"
+	"io/fs"
 	"log/slog"
 	"os"
+	"path"
 	"path/filepath"
 	"sort"
 	"strconv"
@@ -30,6 +32,7 @@ import (
 	"github.com/chainguard-dev/clog"
 
 	"chainguard.dev/apko/pkg/apk/apk"
+	apkfs "chainguard.dev/apko/pkg/apk/fs"
 	"chainguard.dev/apko/pkg/build"
 	"chainguard.dev/apko/pkg/build/types"
 	"chainguard.dev/apko/pkg/tarfs"
@@ -96,6 +99,35 @@ func e2eUniverse(name string) []*synthrepo.Pkg {
 			// replaces lib2 only below a version it does not have: not merged
 			{Name: "other", Version: "1-r0", Origin: "other", Replaces: []string{"lib2<0.1"}, Files: []synthrepo.File{dirF("srv"), regF("srv/other", "o", 0o640)}},
 		}
+	case "links":
+		lnk := func(n, target string) synthrepo.File { return synthrepo.File{Name: n, Type: tar.TypeLink, Linkname: target, Mode: 0o755} }
+		sym := func(n, target string) synthrepo.File { return synthrepo.File{Name: n, Type: tar.TypeSymlink, Linkname: target, Mode: 0o777} }
+		return []*synthrepo.Pkg{
+			// busybox style: one binary with hard-linked applets in several directories (every target sorts before its
+			// links: the C06 envelope), one link naming another link
+			{Name: "bbox", Version: "1.0-r0", Origin: "bbox", Files: []synthrepo.File{
+				dirF("bin"), regF("bin/bbox", "#!bbox binary\n", 0o755), lnk("bin/sh", "bin/bbox"), lnk("bin/vi", "bin/sh"),
+				dirF("sbin"), lnk("sbin/init", "bin/bbox"), dirF("usr"), dirF("usr/bin"), lnk("usr/bin/env", "bin/bbox"),
+				dirF("usr/libexec"), regF("usr/libexec/helper", "h", 0o755), lnk("usr/libexec/helper2", "usr/libexec/helper")}},
+			// symbolic links only: installed size 0
+			{Name: "bbox-links", Version: "1.0-r0", Origin: "applets", Files: []synthrepo.File{
+				dirF("bin"), sym("bin/ls", "/bin/bbox"), dirF("sbin"), sym("sbin/halt", "/bin/bbox"),
+				dirF("usr"), dirF("usr/bin"), sym("usr/bin/ls2", "../../bin/bbox")}},
+			// two packages WITHOUT an origin (they share a group), one of them replaces a package with an origin
+			{Name: "noorigin-a", Version: "1-r0", Replaces: []string{"withorigin"}, Files: []synthrepo.File{
+				dirF("usr"), dirF("usr/lib"), regF("usr/lib/na.so", "na", 0o644), dirF("usr/share"), dirF("usr/share/na"), regF("usr/share/na/a", "a", 0o644)}},
+			{Name: "noorigin-b", Version: "1-r0", Files: []synthrepo.File{
+				dirF("usr"), dirF("usr/lib64"), regF("usr/lib64/nb.so", "nbnb", 0o644), dirF("usr/share"), dirF("usr/share/nb"), regF("usr/share/nb/b", "", 0o644)}},
+			// sibling directories whose names are string prefixes of each other
+			{Name: "withorigin", Version: "2-r0", Origin: "wo", Files: []synthrepo.File{
+				dirF("usr"), dirF("usr/lib"), dirF("usr/lib/wo"), regF("usr/lib/wo/w", "www", 0o644), dirF("usr/libexec"), regF("usr/libexec/wo", "w", 0o755),
+				dirF("usr/li"), regF("usr/li/w", "w", 0o644), regF("usr/lib.conf", "c", 0o644)}},
+			// the package installBusyboxLinks looks for: its manifest makes apko create (unowned) applet symlinks and
+			// re-stamp their directories after installation
+			{Name: "busybox", Version: "1.36.1-r0", Origin: "busybox", Files: []synthrepo.File{
+				dirF("bin"), regF("bin/busybox", "real busybox", 0o755), dirF("etc"), dirF("etc/busybox-paths.d"),
+				regF("etc/busybox-paths.d/busybox", "/bin/busybox\n/bin/ash\n/sbin/route\n/usr/sbin/chroot\n/usr/bin/env2\n", 0o644)}},
+		}
 	}
 	return nil
 }
@@ -107,6 +139,9 @@ func e2eWorlds(universe string) [][]string {
 	case "shared":
 		return [][]string{{"app"}, {"base-layout", "app", "app-doc", "lib1", "lib2", "newlib", "other"}, {"lib1", "newlib", "lib2", "other"},
 			{"base-layout", "lib1"}}
+	case "links":
+		return [][]string{{"bbox", "bbox-links"}, {"busybox", "bbox", "bbox-links", "noorigin-a", "noorigin-b", "withorigin"},
+			{"noorigin-a", "noorigin-b", "withorigin"}}
 	}
 	return nil
 }
@@ -123,7 +158,7 @@ func newE2EEnv(tmp string) (*e2eEnv, error) {
 		return nil, err
 	}
 	e := &e2eEnv{tmp: tmp, repos: map[string]*synthrepo.Repo{}}
-	for _, u := range []string{"tiny", "shared"} {
+	for _, u := range []string{"tiny", "shared", "links"} {
 		r, err := synthrepo.Write(filepath.Join(tmp, "repo-"+u), key, e2eUniverse(u))
 		if err != nil {
 			return nil, err
@@ -138,8 +173,89 @@ func newE2EEnv(tmp string) (*e2eEnv, error) {
 	return e, nil
 }
 
+// recFS records, in order, the effects of the build steps that can be told apart on the filesystem interface:
+// the package installer (WriteHeader), mutateAccounts (a write to etc/passwd or etc/group), WriteEtcApkoConfig
+// (etc/apko.json created), mutatePaths (anything under /work or the configured empty file), installBusyboxLinks (a
+// symlink to /bin/busybox), installCharDevices (Mknod), SetRepositories (etc/apk/repositories written) and the start
+// of serialisation (the first ReadDir(".") of fs.WalkDir). Everything is passed on to the real tarfs unchanged.
+type headerFS interface {
+	apkfs.FullFS
+	WriteHeader(hdr tar.Header, tfs fs.FS, pkg *apk.Package) (bool, error)
+}
+type recFS struct {
+	headerFS
+	armed  bool
+	events []string
+}
+
+func (r *recFS) note(m string) {
+	if r.armed {
+		r.events = append(r.events, m)
+	}
+}
+func (r *recFS) notePath(name string) {
+	switch p := strings.TrimPrefix(path.Clean("/"+name), "/"); {
+	case p == "etc/apko.json":
+		r.note("apko-json")
+	case p == "etc/apk/repositories":
+		r.note("set-repos")
+	case p == "etc/passwd" || p == "etc/group":
+		r.note("accounts")
+	case p == "work" || strings.HasPrefix(p, "work/") || p == "usr/lib/unowned.conf":
+		r.note("paths")
+	}
+}
+func (r *recFS) WriteHeader(hdr tar.Header, tfs fs.FS, pkg *apk.Package) (bool, error) {
+	r.note("install")
+	return r.headerFS.WriteHeader(hdr, tfs, pkg)
+}
+func (r *recFS) Create(name string) (apkfs.File, error) { r.notePath(name); return r.headerFS.Create(name) }
+func (r *recFS) OpenFile(name string, flag int, perm fs.FileMode) (apkfs.File, error) {
+	if flag&(os.O_WRONLY|os.O_RDWR|os.O_CREATE|os.O_TRUNC|os.O_APPEND) != 0 {
+		r.notePath(name)
+	}
+	return r.headerFS.OpenFile(name, flag, perm)
+}
+func (r *recFS) WriteFile(name string, b []byte, mode fs.FileMode) error {
+	r.notePath(name)
+	return r.headerFS.WriteFile(name, b, mode)
+}
+func (r *recFS) Mkdir(p string, perm fs.FileMode) error    { r.notePath(p); return r.headerFS.Mkdir(p, perm) }
+func (r *recFS) MkdirAll(p string, perm fs.FileMode) error { r.notePath(p); return r.headerFS.MkdirAll(p, perm) }
+func (r *recFS) Mknod(p string, mode uint32, dev int) error {
+	r.note("chardev")
+	return r.headerFS.Mknod(p, mode, dev)
+}
+func (r *recFS) Symlink(oldname, newname string) error {
+	if oldname == "/bin/busybox" {
+		r.note("busybox")
+	} else {
+		r.notePath(newname)
+	}
+	return r.headerFS.Symlink(oldname, newname)
+}
+func (r *recFS) ReadDir(name string) ([]fs.DirEntry, error) {
+	if path.Clean(name) == "." {
+		r.note("serialise")
+	}
+	return r.headerFS.ReadDir(name)
+}
+
+// first occurrence of every marker, in order
+func firstOccurrences(ev []string) []string {
+	seen := map[string]bool{}
+	var out []string
+	for _, e := range ev {
+		if !seen[e] {
+			seen[e] = true
+			out = append(out, e)
+		}
+	}
+	return out
+}
+
 // one real build; budget < 0 means: no layering block (the single-layer path)
-func (e *e2eEnv) build(c *e2eCase, budget int, n int) (layers [][]tarcase.Ent, installedDB string, err error) {
+func (e *e2eEnv) build(c *e2eCase, budget int, n int) (layers [][]tarcase.Ent, installedDB string, events []string, err error) {
 	defer func() {
 		if r := recover(); r != nil {
 			err = fmt.Errorf("panic: %v", r)
@@ -172,7 +288,7 @@ func (e *e2eEnv) build(c *e2eCase, budget int, n int) (layers [][]tarcase.Ent, i
 	}
 	tmp, err := os.MkdirTemp(e.tmp, fmt.Sprintf("b%d-", n))
 	if err != nil {
-		return nil, "", err
+		return nil, "", nil, err
 	}
 	defer os.RemoveAll(tmp)
 	opts := []build.Option{build.WithImageConfiguration(ic), build.WithArch(types.ParseArchitecture("amd64")),
@@ -180,18 +296,20 @@ func (e *e2eEnv) build(c *e2eCase, budget int, n int) (layers [][]tarcase.Ent, i
 	if c.ExtraBuild {
 		opts = append(opts, build.WithExtraBuildRepos([]string{e.buildDir}))
 	}
-	bc, err := build.New(ctx, tarfs.New(), opts...)
+	rec := &recFS{headerFS: tarfs.New()}
+	bc, err := build.New(ctx, rec, opts...)
+	rec.armed = true
 	if err != nil {
-		return nil, "", fmt.Errorf("new: %w", err)
+		return nil, "", nil, fmt.Errorf("new: %w", err)
 	}
 	ls, err := bc.BuildLayers(ctx)
 	if err != nil {
-		return nil, "", fmt.Errorf("build: %w", err)
+		return nil, "", nil, fmt.Errorf("build: %w", err)
 	}
 	for _, l := range ls {
 		ents, _, ok := tarcase.ReadLayer(l, "", c)
 		if !ok {
-			return nil, "", fmt.Errorf("layer unreadable")
+			return nil, "", nil, fmt.Errorf("layer unreadable")
 		}
 		layers = append(layers, ents)
 		if rc, err := l.Uncompressed(); err == nil {
@@ -209,7 +327,7 @@ func (e *e2eEnv) build(c *e2eCase, budget int, n int) (layers [][]tarcase.Ent, i
 			rc.Close()
 		}
 	}
-	return layers, installedDB, nil
+	return layers, installedDB, firstOccurrences(rec.events), nil
 }
 
 // the installed packages, as the image's own database lists them (P/V/o/I/r lines)
@@ -303,7 +421,7 @@ func e2eStage(out string, seed uint64, tier string) error {
 	}
 	w := &gal.Writer{Dir: out, Require: "From Apko Require Import Corr.C10.", Type: "c10e_case", Check: "check_c10e", Shard: 20}
 	var cases []e2eCase
-	for _, u := range []string{"tiny", "shared"} {
+	for _, u := range []string{"tiny", "shared", "links"} {
 		for wi, world := range e2eWorlds(u) {
 			variants := []e2eCase{{}}
 			if u == "shared" && wi == 1 {
@@ -312,12 +430,18 @@ func e2eStage(out string, seed uint64, tier string) error {
 			if u == "shared" && wi == 3 {
 				variants = []e2eCase{{}, {Accounts: true}}
 			}
+			if u == "links" && wi == 1 {
+				variants = []e2eCase{{}, {Accounts: true, Paths: true}}
+			}
 			if tier == "thorough" && u == "shared" {
 				variants = []e2eCase{{}, {Accounts: true}, {Paths: true, Accounts: true}, {BuildRepo: true}, {ExtraBuild: true}, {BuildRepo: true, Accounts: true, Paths: true}}
 			}
 			for _, v := range variants {
 				maxB := len(world) + 1
 				budgets := []int{0, 1, 2, maxB}
+				if u == "links" && wi == 1 && !v.Accounts {
+					budgets = []int{0, 1, 2, 3, 4, maxB}
+				}
 				if tier == "thorough" || (u == "shared" && wi == 1 && !v.BuildRepo && !v.ExtraBuild && !v.Accounts) {
 					budgets = nil
 					for b := 0; b <= maxB; b++ {
@@ -343,6 +467,7 @@ func e2eStage(out string, seed uint64, tier string) error {
 		ents      []tarcase.Ent
 		installed []*apk.Package
 		own       []string
+		events    []string
 	}
 	singles := map[string]*singleBuild{}
 	n, built, totalLayers, totalEnts := 0, 0, 0, 0
@@ -352,12 +477,12 @@ func e2eStage(out string, seed uint64, tier string) error {
 		sb, ok := singles[key]
 		if !ok {
 			n++
-			ls, db, err := env.build(&c, -1, n)
+			ls, db, evs, err := env.build(&c, -1, n)
 			if err != nil || len(ls) != 1 {
 				tarcase.ImplViolation("e2e-single-layer-build-fails", map[string]any{"case": c, "err": fmt.Sprint(err), "layers": len(ls)})
 				continue
 			}
-			sb = &singleBuild{ents: ls[0], installed: parseInstalled(db)}
+			sb = &singleBuild{ents: ls[0], installed: parseInstalled(db), events: evs}
 			var clash []string
 			sb.own, clash = ownershipOracle(c.Universe, sb.installed)
 			if len(clash) > 0 || len(sb.installed) == 0 {
@@ -367,7 +492,7 @@ func e2eStage(out string, seed uint64, tier string) error {
 			singles[key] = sb
 		}
 		n++
-		layers, _, err := env.build(&c, c.Budget, n)
+		layers, _, mevents, err := env.build(&c, c.Budget, n)
 		if err != nil {
 			tarcase.ImplViolation("e2e-layered-build-fails", map[string]any{"case": c, "err": err.Error()})
 			continue
@@ -392,8 +517,13 @@ func e2eStage(out string, seed uint64, tier string) error {
 			items[i] = tarcase.EntsTerm(l)
 			nent += len(l)
 		}
-		term := fmt.Sprintf("{| e_budget := %s; e_gs := %s;\n     e_own := %s;\n     e_single := %s;\n     e_layers := %s |}",
-			gal.Z(int64(c.Budget)), gal.List(gsItems), gal.List(sb.own), tarcase.EntsTerm(sb.ents), gal.List(items))
+		// the conditions of the source that hold in this configuration, by their text (Generated/C10Steps.v); every other
+		// condition is false here (no base image, no lock file, TarballPath unset, acceptable layering block)
+		condsS := gal.List([]string{gal.Pair(gal.Str("bc.ic.Layering == nil"), "true"), gal.Pair(gal.Str("bc.ic.Contents.BaseImage == nil"), "true")})
+		condsM := gal.List([]string{gal.Pair(gal.Str("bc.ic.Layering == nil"), "false"), gal.Pair(gal.Str("bc.ic.Contents.BaseImage == nil"), "true")})
+		term := fmt.Sprintf("{| e_budget := %s; e_gs := %s;\n     e_own := %s;\n     e_single := %s;\n     e_layers := %s;\n     e_conds_single := %s; e_events_single := %s; e_conds_multi := %s; e_events_multi := %s |}",
+			gal.Z(int64(c.Budget)), gal.List(gsItems), gal.List(sb.own), tarcase.EntsTerm(sb.ents), gal.List(items),
+			condsS, gal.StrList(sb.events), condsM, gal.StrList(mevents))
 		cl := fmt.Sprintf("e2e:%s:pkgs=%d", c.Universe, len(sb.installed))
 		switch {
 		case c.Budget == 0:
